@@ -38,6 +38,15 @@ EXTS = ["i", "im", "ia", "ima"]
 
 
 def addr_for(r, variant):
+    a = addr_aligned(r, variant)
+    if r.random() < 0.12:
+        # decoding must not depend on the address: also 2-byte aligned and odd addresses
+        top = 2 ** 32 if variant == "32" else 2 ** 64
+        a = (a + r.choice([1, 2, 3])) % top
+    return a
+
+
+def addr_aligned(r, variant):
     top = 2 ** 32 if variant == "32" else 2 ** 64
     k = r.random()
     if k < 0.5:
